@@ -210,6 +210,10 @@ fn plan_inner(prop: &str, tier: &str) -> Option<Plan> {
                 }
                 if prop == "C06" {
                     jobs.push(job(prop, "gsweep", f, tier, json!({"cmp": true})));
+                    // priority-queue family: every arrival order of distinct values (and all ties)
+                    for (k, sh) in if tier == "quick" { vec![(2usize, 1usize), (3, 1), (4, 8)] } else { vec![(2, 1), (3, 1), (4, 8), (5, 32)] } {
+                        jobs.extend(sharded(prop, "gsweep", f, tier, json!({"n": 0, "max_l": 0, "heap": k}), sh));
+                    }
                 }
             }
             let what = match prop {
@@ -331,9 +335,9 @@ fn plan_inner(prop: &str, tier: &str) -> Option<Plan> {
         }),
         "C18" => {
             let params = if tier == "quick" {
-                json!({"max_edges": 2, "max_depth": 4, "seeds": [0, 1, 2], "dot_attr_max_edges": 1})
+                json!({"max_edges": 2, "max_depth": 4, "seeds": [0, 1, 2], "dot_attr_max_edges": 2})
             } else {
-                json!({"max_edges": 3, "max_depth": 7, "seeds": [0, 1, 2, 3, 4, 5, 6, 7], "dot_attr_max_edges": 2})
+                json!({"max_edges": 3, "max_depth": 7, "seeds": [0, 1, 2, 3, 4, 5, 6, 7], "dot_attr_max_edges": 3})
             };
             Some(Plan {
                 jobs: ALL
@@ -345,7 +349,7 @@ fn plan_inner(prop: &str, tier: &str) -> Option<Plan> {
                     })
                     .collect(),
                 level: "model_checking".into(),
-                rule: "BFS over (member map, adjacency) states reached by histories of insert (5 node objects: 3 graph nodes and 2 same-key impostors with different values), remove, and connect/try_connect/disconnect/isolate applied through handles taken from the container (get / index alternating) or, for non-members, the program's own handles; after every step every view (contains, len, is_empty, get, index, to_vec, iter, roots, leaves, orphans) is compared with a map model plus the reference adjacency, return values of insert/remove with the model, edge operations with the C03 contract observed through the program's own handles (identity), and the DOT exports are parsed statement by statement (to_dot on every state and every hash seed, to_dot_with_attr for all 4^3 callback combinations on small states); the three constructors are compared on the empty container; everything is explored twice: with the program keeping its own handle to every node, and with the container holding the only strong handle of its members (handles are dropped on insert and taken back from remove); insert/remove must not change any adjacency. A third job inserts chains of 1..40 (quick) / 1..96 (thorough) nodes under two hash seeds, checks every view and both DOT exports, then removes every key one by one (checking all views after each removal and that a second removal returns None), so hash-map growth and rehash thresholds are crossed in both directions. evaluations = histories executed".into(),
+                rule: "BFS over (member map, adjacency) states reached by histories of insert (5 node objects: 3 graph nodes and 2 same-key impostors with different values), remove, and connect/try_connect/disconnect/isolate applied through handles taken from the container (get / index alternating) or, for non-members, the program's own handles; after every step every view (contains, len, is_empty, get, index, to_vec, iter, roots, leaves, orphans) is compared with a map model plus the reference adjacency, return values of insert/remove with the model, edge operations with the C03 contract observed through the program's own handles (identity), and the DOT exports are parsed statement by statement (to_dot on every state and every hash seed, to_dot_with_attr for all 4 x 6 x 6 callback combinations on small states (None, empty, one, two attributes, and two variants whose answer depends on the node or edge asked about)); the three constructors are compared on the empty container; everything is explored twice: with the program keeping its own handle to every node, and with the container holding the only strong handle of its members (handles are dropped on insert and taken back from remove); insert/remove must not change any adjacency. A third job inserts chains of 1..40 (quick) / 1..96 (thorough) nodes under two hash seeds, checks every view and both DOT exports, then removes every key one by one (checking all views after each removal and that a second removal returns None), so hash-map growth and rehash thresholds are crossed in both directions. evaluations = histories executed".into(),
                 bounds: params.clone(),
                 exhaustive: true,
                 assumptions: vec![
@@ -385,13 +389,17 @@ fn plan_inner(prop: &str, tier: &str) -> Option<Plan> {
                 for (n, l, two, sh) in &table {
                     jobs.extend(sharded(prop, "loopx", f, tier, json!({"n": n, "max_l": l, "two_ops": two}), *sh));
                 }
+                // container-owned mode: the closure isolates a node and removes it from the only container owning it
+                for (n, l, sh) in if tier == "quick" { vec![(2usize, 2usize, 1usize), (3, 2, 4)] } else { vec![(2, 3, 2), (3, 3, 8), (4, 2, 8)] } {
+                    jobs.extend(sharded(prop, "loopx", f, tier, json!({"n": n, "max_l": l, "two_ops": false, "owned": true}), sh));
+                }
                 let large: Vec<usize> = if tier == "quick" { vec![17] } else { vec![17, 24, 33] };
                 jobs.extend(sharded(prop, "loopx", f, tier, json!({"n": 3, "max_l": 0, "two_ops": false, "large": large}), 5 * large.len()));
             }
             Some(Plan {
                 jobs,
                 level: "exploration".into(),
-                rule: "every canonical shape up to the bound x every root x every loop kind (edge iterators iter_out/iter, iter_in, `for e in &n`; bfs, dfs, pfs-min, pfs-max, preorder, postorder, transposed variants for the directed flavours, closure installed as for_each and as filter, with every target and without, cycle searches) x every script 'at callback step i perform o' for every step the unscripted loop reaches and every o in {connect, try_connect, disconnect, isolate over all operands, degree/is_connected/find queries, a nested complete edge loop, a nested bfs search, clone+drop of a handle}; thorough adds every second mutating operation at every later step; every operation that adds no edge is also executed at *every* callback step. Oracle: no panic / self-deadlock (lock monitor) / crash; the loop ends within 4*(edges + edges added by the script)+8 callbacks; every yielded edge exists in the graph at the moment it is yielded with its true endpoints and value (checked by a fresh iteration from inside the callback); handles taken before the loop still work; the final state equals the state reached by the same operations outside any loop. The same single-operation and every-step scripts also run on hub-heavy multigraphs of 3 nodes with 17 / 24 / 33 edges (hub-out, hub-in, all-parallel, all-self-loops, mixed), so adjacency lists far longer than the enumerated shapes are mutated mid-iteration at every position. nontrivial = scripts with a mutating operation".into(),
+                rule: "every canonical shape up to the bound x every root x every loop kind (edge iterators iter_out/iter, iter_in, `for e in &n`; bfs, dfs, pfs-min, pfs-max, preorder, postorder, transposed variants for the directed flavours, closure installed as for_each and as filter, with every target and without, through search_path() and through search(), cycle searches) x every script 'at callback step i perform o' for every step the unscripted loop reaches and every o in {connect, try_connect, disconnect, isolate over all operands, degree/is_connected/find queries, a nested complete edge loop, a nested bfs search, clone+drop of a handle}; thorough adds every second mutating operation at every later step; every operation that adds no edge is also executed at *every* callback step. Oracle: no panic / self-deadlock (lock monitor) / crash; the loop ends within 4*(edges + edges added by the script)+8 callbacks; every yielded edge exists in the graph at the moment it is yielded with its true endpoints and value (checked by a fresh iteration from inside the callback); handles taken before the loop still work; the final state equals the state reached by the same operations outside any loop. Container-owned mode: all nodes are owned by a Graph container only (the program keeps just the root's handle) and at every callback step the closure isolates one node and removes it from the container, for every node - the running loop must neither panic on the released node nor yield a stale edge, and the remaining members must stay intact. The same single-operation and every-step scripts also run on hub-heavy multigraphs of 3 nodes with 17 / 24 / 33 edges (hub-out, hub-in, all-parallel, all-self-loops, mixed), so adjacency lists far longer than the enumerated shapes are mutated mid-iteration at every position. nontrivial = scripts with a mutating operation".into(),
                 bounds: json!({"(nodes, max_edges, two_op_scripts, shards)": table, "large_family_edge_counts": if tier == "quick" { vec![17] } else { vec![17, 24, 33] }}),
                 exhaustive: true,
                 assumptions: vec!["a traversal that never calls back cannot be stopped by the closure; the worker watchdog reports it as a hang".into()],
